@@ -177,11 +177,9 @@ Proof.
               unfold enabled, step. rewrite P, Lb, Fr, Pp, Z.eqb_refl, Ce, !Z.eqb_refl, !eqb_reflx. cbn [negb andb].
               destruct (take_rows _ _ _) as [taken used]. simp_state.
               destruct (fi_shutdown fi =? 1).
-              ** destruct (lookup b (queue s)) as [qb|] eqn:Lq.
-                 --- destruct (known_of s qb K) as (rq & Lqb).
-                     { unfold places. do 4 (apply in_or_app; right). apply in_or_app. left. eapply in_queue_values; eauto. }
-                     rewrite Lqb. discriminate.
+              ** destruct (successors b (queue s)) as [|qb qbs] eqn:Lq.
                  --- destruct (pop_mode s && negb (fi_nopop fi)); [discriminate|]. destruct (negb (fi_rm fi)); discriminate.
+                 --- discriminate.
               ** destruct (_ && _); discriminate.
         -- (* the bar renders (on its actor, or by the container goroutine once the actor has exited) *)
            set (st := br_st r).
